@@ -136,6 +136,37 @@ def check_mapped_programs(h: Harness, spec, b, g, mind, rng):
             check_labels(h, site, spec, b, p)
 
 
+def stack_lists_of_abstract_elements(h: Harness):
+    """the stack representation on a CONCRETE start symbol that needs a list of an abstract element type (Expr > Num > Lit: the elements
+    sit two abstract expansions below their declared type), in both depth modes: lists -- non-empty ones included -- and everything above
+    them carry the counts a traversal gives"""
+    from linear import Stack, safe
+    from geneticengine.random.sources import NativeRandomSource
+    C = gram.ClassSpec
+    rng = h.rng
+    for expansion in (True, False):
+        spec = gram.Spec([C("Expr", True, None), C("Num", True, 0), C("Lit", False, 1, [("v", ("ann", "int", ("intRange", 0, 9)))]),
+                          C("Neg", False, 0, [("e", ("cls", 0))]),
+                          C("Block", False, None, [("xs", ("list", ("cls", 0))), ("k", ("ann", "int", ("intRange", 0, 3)))])], 4, [2, 3, 4, 1], expansion)
+        b = gram.build(spec)
+        g = b.extract()
+        rep = Stack(g, gene_length=256)
+        nonempty = 0
+        for trial in range(h.n(40, 300)):
+            r = NativeRandomSource(rng.randrange(10**6))
+            st, geno = safe(lambda: rep.create_genotype(r))
+            if st != "ok":
+                continue
+            st, p = safe(lambda: rep.genotype_to_phenotype(geno))
+            if st != "ok":
+                continue
+            h.count("stack-lists-of-abstract-elements")
+            nonempty += bool(getattr(p, "xs", None))
+            check_labels(h, "Stack.genotype_to_phenotype", spec, b, p)
+        h.seen(f"stack-lists:{expansion}", nontrivial=nonempty > 0)
+        h.count("stack-lists-of-abstract-elements:non-empty", nonempty)
+
+
 def context_programs(h: Harness):
     from geneticengine.random.sources import NativeRandomSource
     from geneticengine.representations.tree.initializations import MaxDepthDecider, PositionIndependentGrowDecider
@@ -319,6 +350,7 @@ def exercise(h: Harness, spec, rng, b=None):
 def run(h: Harness):
     rng = h.rng
     context_programs(h)
+    stack_lists_of_abstract_elements(h)
     palette_programs(h)
     kinds_programs(h)
     for spec in corpus():
